@@ -4,11 +4,14 @@
 // alphabet made of every avfs.VFS method on the RoFS and on a file system
 // obtained from it through Sub, and every avfs.File method on pooled handles
 // (methods enumerated by reflection over the interface types), executed on the
-// real rofs.RoFS over a real MemFS / OrefaFS base holding a small tree.
+// real rofs.RoFS over a real MemFS / OrefaFS base holding a small tree. Every
+// base exists Linux-typed and Windows-typed (build tag avfs_setostype; the
+// alphabet is spelled for the OS type); the Windows-typed MemFS holds a second
+// volume, whose root, directory and file are operands too.
 // Oracles on every call:
 //
 //  1. the base (internal dump + public-API dump with mtimes, taken directly on
-//     the base as administrator) is identical before and after;
+//     the base as administrator, over every volume) is identical before and after;
 //  2. a mutating call fails with errors.Is(err, fs.ErrPermission);
 //  3. a read-only call returns what the same call returns on a twin base with
 //     identical content, driven directly (handles: a twin handle opened by the
@@ -36,6 +39,7 @@ import (
 
 func newSys(name, tier string) (*sys, []string, map[string]any) {
 	s := &sys{name: name, tier: tier}
+	s.kind, s.win = sysKind(name)
 
 	var (
 		bad  []string
@@ -61,7 +65,7 @@ func main() {
 	id := flag.String("id", "C09", "")
 	tier := flag.String("tier", "quick", "")
 	depth := flag.Int("depth", 0, "history length bound (default: 2 quick, 3 thorough)")
-	systems := flag.String("systems", "", "comma separated subset of MemFS,OrefaFS")
+	systems := flag.String("systems", "", "comma separated subset of MemFS,OrefaFS,MemFS@Windows,OrefaFS@Windows")
 	workers := flag.Int("workers", 0, "")
 	replayFile := flag.String("replay", "", "re-execute the history of a replay file")
 	listOps := flag.Bool("ops", false, "print the alphabet and exit")
@@ -85,7 +89,8 @@ func main() {
 	}
 
 	// the smaller system first: what it leaves of its share of the budget goes to the larger one
-	sysNames := []string{"OrefaFS", "MemFS"}
+	// (<kind>@Windows: the base emulates Windows)
+	sysNames := []string{"OrefaFS", "OrefaFS@Windows", "MemFS", "MemFS@Windows"}
 	if *systems != "" {
 		sysNames = strings.Split(*systems, ",")
 	}
@@ -143,20 +148,17 @@ func main() {
 		cfgDeadline time.Time
 	)
 
-	for si, sn := range sysNames {
-		// the remaining budget is shared evenly among the bases still to run
-		if !deadline.IsZero() {
-			left := time.Until(deadline)
-			cfgDeadline = time.Now().Add(left / time.Duration(len(sysNames)-si))
-		}
+	// precondition, one system after the other (the random source of the
+	// harness is process-wide): the systems can be built and base == twin
+	probes := make([]*sys, len(sysNames))
 
+	for si, sn := range sysNames {
 		probe, bad, info := newSys(sn, *tier)
 		if len(bad) > 0 {
 			fmt.Fprintf(os.Stderr, "harness error: cannot build arguments for %v (unknown parameter type): extend cmd/c09/alphabet.go\n", bad)
 			os.Exit(2)
 		}
 
-		// precondition: the systems can be built and base == twin
 		probe.fullCheck = true
 
 		if err := probe.Reset(); err != nil {
@@ -166,9 +168,17 @@ func main() {
 
 		info["operations"] = probe.NumOps()
 		alphaInfo[sn] = info
+		probes[si] = probe
+	}
+
+	all = make([]bfs.Stats, len(sysNames))
+	lines := make([]string, len(sysNames))
+
+	runOne := func(si int, dl time.Time) {
+		sn, probe := sysNames[si], probes[si]
 
 		cfg := bfs.Config{
-			System: sn, MaxDepth: d, Deadline: cfgDeadline, Workers: *workers,
+			System: sn, MaxDepth: d, Deadline: dl, Workers: *workers,
 			Report: func(system string, hist []string, op string, v bfs.Viol) {
 				var det map[string]any
 
@@ -198,11 +208,6 @@ func main() {
 		}
 
 		st := bfs.Run(cfg, probe.OpString)
-		all = append(all, st)
-
-		if st.HarnessErr != "" {
-			harnessErr = sn + ": " + st.HarnessErr
-		}
 
 		exec := 0
 
@@ -212,8 +217,48 @@ func main() {
 			}
 		}
 
-		fmt.Printf("C09 %s: ops=%d states=%d steps=%d executed_calls=%d depth_completed=%d exhaustive=%v\n",
+		mu.Lock()
+		defer mu.Unlock()
+
+		all[si] = st
+
+		if st.HarnessErr != "" {
+			harnessErr = sn + ": " + st.HarnessErr
+		}
+
+		lines[si] = fmt.Sprintf("C09 %s: ops=%d states=%d steps=%d executed_calls=%d depth_completed=%d exhaustive=%v",
 			sn, probe.NumOps(), st.States, st.Transitions, exec, st.DepthDone, st.Exhaustive)
+	}
+
+	if deadline.IsZero() {
+		// no budget to share: the explorations are independent of each other
+		// (own workers, own instances) and run side by side; the first level of
+		// each of them is a single expansion that would leave the machine idle
+		var wg sync.WaitGroup
+
+		for si := range sysNames {
+			wg.Add(1)
+
+			go func(si int) {
+				defer wg.Done()
+
+				runOne(si, time.Time{})
+			}(si)
+		}
+
+		wg.Wait()
+	} else {
+		for si := range sysNames {
+			// the remaining budget is shared evenly among the bases still to run
+			left := time.Until(deadline)
+			cfgDeadline = time.Now().Add(left / time.Duration(len(sysNames)-si))
+
+			runOne(si, cfgDeadline)
+		}
+	}
+
+	for _, l := range lines {
+		fmt.Println(l)
 	}
 
 	// ---- aggregate
@@ -259,7 +304,7 @@ func main() {
 
 	// methods actually executed, per object kind (from the outcome classes)
 	execMethods := map[string]bool{}
-	viewChanges, refused := 0, 0
+	viewChanges, refused, refusedOS := 0, 0, 0
 
 	for k, n := range outcomes {
 		head := k
@@ -275,6 +320,12 @@ func main() {
 
 		if strings.Contains(k, "/refused:") {
 			refused += n
+
+			// Windows-typed base: the value package os answers on Windows whatever
+			// the file system (Chown, Lchown: not supported; Symlink: privilege not held)
+			if i := strings.Index(k, "/refused:WIN"); i >= 0 && !strings.HasPrefix(k[i:], "/refused:WIN5") {
+				refusedOS += n
+			}
 		}
 	}
 
@@ -336,6 +387,7 @@ func main() {
 			"states": states, "transitions": executed, "traces_validated_against_impl": executed,
 			"evaluations": executed, "distinct_nontrivial": len(outcomes),
 			"rule": "every history of length <= bound over the static alphabet (every avfs.VFS method on the RoFS and on a pooled Sub file system, every avfs.File method on two pooled handle slots; methods enumerated by reflection, small argument domain per parameter) executed on a fresh real RoFS over a real base with a twin base as reference; " +
+				"bases: MemFS and OrefaFS, each Linux-typed and Windows-typed (<kind>@Windows; same tree on volume C:, paths spelled with volume and backslashes, plus a rooted path without volume; the Windows-typed MemFS holds a second volume D: with a directory and a file, which are operands of every path method, of Sub, WalkDir, Glob, Rel, SameFile and of the second operand of Link/Rename/Symlink); " +
 				"transitions = calls actually executed (alphabet operations whose receiver slot is empty are skipped and counted apart); distinct_nontrivial = distinct (object kind, method, outcome class) triples observed",
 			"samples":                samples,
 			"exhaustive":             exh,
@@ -344,23 +396,26 @@ func main() {
 			"alphabet":               alphaInfo,
 			"steps_including_skips":  steps,
 			"skipped_empty_receiver": skipped,
-			"mutating_calls_refused_with_permission_error": refused,
-			"view_state_changes_recorded":                  viewChanges,
-			"object_kind_methods_executed":                 execList,
-			"methods_never_executed":                       never,
-			"outcome_classes":                              outcomes,
-			"known_findings_matched":                       append([]string{}, rep.KnownMatched()...),
-			"budget_s":                                     budget,
+			"mutating_calls_refused_with_permission_error":          refused,
+			"of_which_windows_typed_chown_lchown_symlink_os_answer": refusedOS,
+			"view_state_changes_recorded":                           viewChanges,
+			"object_kind_methods_executed":                          execList,
+			"methods_never_executed":                                never,
+			"outcome_classes":                                       outcomes,
+			"known_findings_matched":                                append([]string{}, rep.KnownMatched()...),
+			"budget_s":                                              budget,
 		},
 		Assumptions: []string{
-			"the base snapshot is the injected internal dump (tree, bytes, modes, owners, link counts) plus a public-API dump with mtimes taken directly on the base as administrator; the OrefaFS root directory is not addressable through the API, so its own mtime is not observed",
-			"permission CLASS: errors.Is(err, fs.ErrPermission); no particular errno is demanded. On a handle that was returned together with an error (typed nil or zero RoFile) any error is accepted for a mutating call, on a closed handle a closed-file error is accepted too; a panic never is",
+			"the base snapshot is the injected internal dump (tree, bytes, modes, owners, link counts; every volume of the volume table of a Windows-typed MemFS, so that a volume added, removed or re-rooted is a change) plus a public-API dump with mtimes taken directly on the base as administrator; the OrefaFS root directory is not addressable through the API (under either OS type), so its own mtime is not observed",
+			"Windows-typed bases are the library's own emulation (Options.OSType = avfs.OsWindows, build tag avfs_setostype) on a Linux host; the OrefaFS has no volume management, so only the MemFS holds a second volume",
+			"permission CLASS: errors.Is(err, fs.ErrPermission); no particular errno is demanded. On a Windows-typed base Chown/Lchown of a file system answer avfs.ErrWinNotSupported and Symlink answers avfs.ErrWinPrivilegeNotHeld on the base itself as through the RoFS, as package os does on Windows whatever the file system; neither is fs.ErrPermission (for package os either): for these three calls there these values count as the refusal (counted in of_which_windows_typed_chown_lchown_symlink_os_answer). On a handle that was returned together with an error (typed nil or zero RoFile) any error is accepted for a mutating call, on a closed handle a closed-file error is accepted too; a panic never is",
 			"Name() on a typed nil handle panics by design (as (*os.File)(nil).Name()) and is not reported",
 			"view state of the base that the statement does not list (cwd, umask, user, identity manager) is recorded (view_state_changes_recorded) and is not a violation; a view-state call that returns nil is mirrored on the twin, one that returns an error is assumed to have had no effect",
 			"OpenFile with O_EXCL but without O_CREATE and without any write/append/truncate flag is unspecified: only the base snapshot and the absence of a panic are checked; Sub, Type, Features, HasFeature, Idm, Fd are not compared with the base (different by design)",
 			"mutating calls are never executed on the twin; objects handed out by a mutating call that was not refused have no twin and only oracles 1 and 2 apply to them",
 			"after a change of the base the state is not expanded further",
 			"random part of temp names is supplied by the harness (deterministic)",
+			"base and twin are built by the same deterministic steps; their dumps are compared after the first construction in every process (and with the full public-API dump by the parent), not after every construction. Without a time budget (quick tier) the four explorations run side by side, each with its own workers",
 		},
 		Violations: rep.NewCount(),
 	}
